@@ -236,8 +236,14 @@ func VerifC17_hashBoundaries() {
 func VerifC17_ipLiteral() {
 	l := vrt.Range("len", 0, vrt.Param("IL", 4))
 	s := vrt.Str("ip", l)
+	noZone := vrt.Param("NOZONE", 0) == 1
 	for i := 0; i < l; i++ {
 		vrt.Assume(s[i] < 0x80)
+		if noZone {
+			// IPv6 zone identifiers ("fe80::1%eth0") go through unique.Make, which the engine does not
+			// interpret on symbolic values; net.ParseIP rejects addresses with a zone anyway
+			vrt.Assume(s[i] != '%')
+		}
 	}
 	which := vrt.Choose("ctor", 3)
 	switch which {
